@@ -221,7 +221,7 @@ fn k_int_3_maybe_changed_after() {
     std::mem::forget(ing);
 }
 
-//@off(pending-measurement) id=K-INT-5 kind=B bound=one-IndexSet-insert props=C09,C01 timeout=900 fn=report_tracked_read_if_reusable
+//@ob id=K-INT-5 kind=B bound=one-IndexSet-insert props=C09,C01 timeout=900 fn=report_tracked_read_if_reusable
 //@ pre: an active query frame; an interned value of any durability, collecting or immortal configuration; any current revision
 //@ post: the query's changed_at always absorbs the current revision (ids are not stable across revisions); a dependency edge with the value's durability is recorded exactly when the slot is reusable (LOW && collecting)
 #[cfg_attr(kani, kani::proof)]
